@@ -365,6 +365,15 @@ func suiteReuse(rn *runner, r *rng, tier string) {
 
 // C16: copied strings decouple results from the input; Clone is independent
 func suiteAlias(rn *runner, r *rng, tier string) {
+	// values delivered by ParseNDStream: several chunks, every value held until the stream has ended and the reader's
+	// bytes have been overwritten, then read
+	bigStreamCase(rn, r.fork(), "holdall", 4, 2, 0, "alias")
+	bigStreamCase(rn, r.fork(), "holdall", 3, 1, 1<<20, "alias")
+	if tier == "thorough" {
+		for k := 0; k < 6; k++ {
+			bigStreamCase(rn, r.fork(), "holdall", 3+k, 1+k%4, []int{0, 1 << 20, 4096}[k%3], "alias")
+		}
+	}
 	n := 800
 	if tier == "thorough" {
 		n = 20000
